@@ -96,7 +96,8 @@ def c16(ctx):
                     "happened (bounds-checked indexing and slicing, split_at_mut, overflow and debug assertions, an empty gen_range, "
                     "partition_mut's precondition pivot < len, the preconditions of the recursive calls) and each must be entailed by the "
                     "state reached under `i < len` resp. the bulk routine's precondition. Panics inside the element type's own clone/cmp "
-                    "are outside the property. The public bulk wrapper's own `array[0]` (non-empty index list ⇒ non-empty array) is not modelled.",
+                    "are outside the property. The executions also cover the empty request (no requested rank: nothing to establish, nothing may panic), and "
+                    "the public bulk wrapper may read the array at position 0 only, behind `!indexes.is_empty()` (non-empty in-bounds request ⇒ non-empty array).",
     )
 
 
